@@ -33,6 +33,7 @@
 
 #include <chrono>
 #include <climits>
+#include <cstring>
 #include <dirent.h>
 
 #include "common/circuit.hpp"
@@ -356,6 +357,183 @@ static Spec genWide(vh::Rng &g, int maxCells) {
   return s;
 }
 
+// Dense designs with many cells relative to the density-grid bins (the kinds "unit", "grid", "tiny").
+//   unit : abstract unit-grid circuits: row height 1-2, movable cells of area 1-4 (cellDemand = 1 exists),
+//          densities up to exactly 100 % (every line of bins full) and beyond
+//   grid : standard cells (row height 2-8 times a scale up to 2^22 magnitude), 2-40 rows so that the density grid has
+//          several bins in BOTH directions and several coarsening levels, 10-200 cells, a few multi-row / wide cells
+//   tiny : the smallest circuits there are (1-3 rows of width 1-4 and height 1-2, 1-4 cells), at the origin or against
+//          the +-2^22 limits
+// vc::genCircuit (row height >= 2, <= 6 rows, <= 15 cells) and genWide (<= 4 rows) never produce any of these.
+struct DenseInfo { int cells = 0, minArea = 0; double density = 0; long long binsX = 1, binsY = 1; };
+static Spec genDense(vh::Rng &g, int kind /*0 unit,1 grid,2 tiny*/, int maxCells, bool overfull, DenseInfo &di) {
+  Spec s;
+  // density: exactly full / nearly full / anything / (shape infeasible_density) overfull
+  double dens;
+  {
+    int dm = g.range(0, 9);
+    if (overfull) dens = 1.0 + g.range(1, 100) / 100.0;
+    else if (dm < 3) dens = 1.0;
+    else if (dm < 5) dens = 0.9 + g.range(0, 10) / 100.0;
+    else if (dm < 8) dens = 0.5 + g.range(0, 40) / 100.0;
+    else dens = 0.05 + g.range(0, 45) / 100.0;
+  }
+  long long S = 1;  // scale
+  int H, nRows, W;  // in units of S
+  int maxW;         // cell width in units
+  if (kind == 0) {
+    H = g.chance(7, 10) ? 1 : 2;
+    nRows = g.chance(1, 6) ? g.range(1, 2) : g.range(2, 24);
+    W = g.chance(1, 6) ? g.range(1, 5) : g.range(4, 40);
+    maxW = 4 / H;
+    if (g.chance(1, 2)) maxW = 1;  // every cell of the minimum size (area 1 when H == 1)
+  } else if (kind == 1) {
+    H = g.range(2, 8);
+    nRows = g.range(2, 40);
+    W = H * g.range(3, 40);
+    maxW = g.range(2, 8);
+    if (g.chance(1, 2)) {
+      // up to the full magnitude: (W + 8) * S and (nRows * H + 8) * S stay within 2^22 on each side of the origin
+      long long lim = std::min(2 * M22 / (W + 8), 2 * M22 / ((long long)nRows * H + 8));
+      int r = 0;
+      while ((2ll << r) <= lim) ++r;
+      S = 1ll << g.range(0, r);
+      if (g.chance(1, 3)) S = g.range(1, std::max(1ll, lim));
+      while (S > 1 && (long long)maxW * S * 4 * H * S >= (1ll << 31)) S /= 2;  // areas below 2^31 (also for the macros)
+    }
+  } else {
+    H = g.range(1, 2);
+    nRows = g.range(1, 3);
+    W = g.range(1, 4);
+    maxW = g.range(1, 2);
+  }
+  // high densities need the area to match the number of cells the case can afford
+  if (dens >= 0.9 && kind != 2) {
+    double avgA = H * (1 + maxW) / 2.0;
+    while ((double)W * nRows * H * dens > maxCells * avgA && (W > H || nRows > 1)) {
+      if (W / H >= nRows) W = std::max(H, W * 3 / 4); else nRows = std::max(1, nRows * 3 / 4);
+    }
+  }
+  int x0 = kind == 2 ? 0 : g.range(-3, 3), y0 = kind == 2 ? 0 : g.range(-3, 3);
+  int ragged = g.chance(1, 4);
+  long long cap = 0;
+  for (int r = 0; r < nRows; ++r) {
+    int a = x0 + (ragged ? g.range(0, std::min(2, W - 1)) : 0), b = x0 + W - (ragged ? g.range(0, std::min(2, W - 1)) : 0);
+    if (b <= a) b = a + 1;
+    CellOrientation ro = g.chance(1, 2) ? (r % 2 ? CellOrientation::FS : CellOrientation::N) : CellOrientation::N;
+    if (W >= 8 && g.chance(1, 10)) {  // split row
+      int m = g.range(a + 2, b - 3);
+      s.rows.emplace_back(a * S, m * S, (y0 + r * H) * S, (y0 + (r + 1) * H) * S, ro);
+      s.rows.emplace_back((m + g.range(0, 1)) * S, b * S, (y0 + r * H) * S, (y0 + (r + 1) * H) * S, ro);
+    } else {
+      s.rows.emplace_back(a * S, b * S, (y0 + r * H) * S, (y0 + (r + 1) * H) * S, ro);
+    }
+  }
+  for (auto &r : s.rows) cap += (long long)(r.width() / S) * H;
+  // fixed obstructions inside the area (their area leaves the capacity)
+  int nf = kind == 2 ? g.range(0, 1) : (g.chance(1, 2) ? 0 : g.range(1, 4));
+  struct Fx { int w, h, x, y; bool ob; };
+  std::vector<Fx> fixed;
+  for (int i = 0; i < nf; ++i) {
+    Fx f;
+    f.w = g.range(0, std::max(1, W / 4)); f.h = H * g.range(0, std::max(1, nRows / 3));
+    f.x = x0 + g.range(-1, W); f.y = y0 + H * g.range(0, nRows - 1);
+    f.ob = g.chance(3, 4);
+    if (f.ob) {
+      long long ox = std::max(0, std::min(x0 + W, f.x + f.w) - std::max(x0, f.x));
+      long long oy = std::max(0, std::min(y0 + nRows * H, f.y + f.h) - std::max(y0, f.y));
+      cap -= ox * oy;
+    }
+    fixed.push_back(f);
+  }
+  cap = std::max(1ll, cap);
+  long long want = (long long)std::ceil(dens * cap - 1e-9);
+  // initial positions: all on one point / uniform in the area / on a lattice / far away / in one corner bin
+  int pm = g.range(0, 5);
+  int cx = x0 + g.range(0, W), cy = y0 + g.range(0, nRows * H);
+  long long area = 0;
+  int minArea = INT_MAX;
+  for (int i = 0; i < maxCells && area < want; ++i) {
+    int w = g.range(1, maxW), rowsHigh = 1;
+    if (kind == 1 && g.chance(1, 25)) { rowsHigh = g.range(2, std::min(4, nRows)); w = g.range(1, std::min(W, 2 * maxW)); }
+    if (kind == 1 && g.chance(1, 40)) w = g.range(1, W);  // wider than a bin
+    if (w > W) w = W;
+    if (!overfull && area + (long long)w * rowsHigh * H > want) { w = 1; rowsHigh = 1; }
+    if (!overfull && area + (long long)w * rowsHigh * H > want) break;
+    int x, y;
+    switch (pm) {
+      case 0: x = cx; y = cy; break;
+      case 1: x = x0 + g.range(0, std::max(0, W - w)); y = y0 + g.range(0, nRows * H - 1); break;
+      case 2: x = x0 + (7 * i) % W; y = y0 + (3 * i) % (nRows * H); break;
+      case 3: {  // far from the rows, inside the domain
+        long long far = std::min<long long>(500, M22 / S - std::max(W, nRows * H) - 16);
+        if (far < 1) far = 0;
+        x = g.range(-far, far); y = g.range(-far, far);
+        break;
+      }
+      case 4: x = x0 + g.range(0, std::min(W - 1, 4)); y = y0 + g.range(0, std::min(nRows * H - 1, 4)); break;
+      default: x = 0; y = 0; break;  // the library's "unplaced" default
+    }
+    CellRowPolarity pol = g.chance(1, 8) ? (CellRowPolarity)g.range(1, 4) : CellRowPolarity::ANY;
+    s.addCell(w * S, rowsHigh * H * S, x * S, y * S, false, g.chance(1, 2), vc::pickUnturned(g), pol);
+    area += (long long)w * rowsHigh * H;
+    minArea = std::min<long long>(minArea, (long long)w * rowsHigh * H * S * S);
+  }
+  if (s.n() == 0) { s.addCell(S, H * S, x0 * S, y0 * S, false, true); area = H; minArea = H * S * S; }
+  for (auto &f : fixed) s.addCell(f.w * S, f.h * S, f.x * S, f.y * S, true, f.ob, (CellOrientation)g.range(0, 3));
+  // shuffle the cells (fixed ones interleaved)
+  {
+    int n = s.n();
+    std::vector<int> perm(n);
+    for (int i = 0; i < n; ++i) perm[i] = i;
+    for (int i = n; i > 1; --i) std::swap(perm[i - 1], perm[g.range(0, i - 1)]);
+    Spec t = s;
+    for (int i = 0; i < n; ++i) {
+      int j = perm[i];
+      t.w[i] = s.w[j]; t.h[i] = s.h[j]; t.x[i] = s.x[j]; t.y[i] = s.y[j]; t.fx[i] = s.fx[j]; t.ob[i] = s.ob[j];
+      t.o[i] = s.o[j]; t.pol[i] = s.pol[j];
+    }
+    s = t;
+  }
+  // nets: none / chain / random 2-4 pins / a few high-degree nets / mixture
+  int n = s.n();
+  int nm = g.range(0, 5);
+  auto pin = [&](NetS &nt, int c) {
+    nt.c.push_back(c);
+    nt.xo.push_back(g.chance(1, 2) ? 0 : g.range(0, s.w[c]));
+    nt.yo.push_back(g.chance(1, 2) ? 0 : g.range(0, s.h[c]));
+  };
+  if (nm == 1 || nm == 4)
+    for (int i = 0; i + 1 < n; ++i) { NetS nt; pin(nt, i); pin(nt, i + 1); s.nets.push_back(nt); }
+  if (nm == 2 || nm == 4 || nm == 5) {
+    int nn = g.range(1, std::max(1, 2 * n));
+    if (nn > 300) nn = 300;
+    for (int k = 0; k < nn; ++k) {
+      NetS nt;
+      nt.w = g.chance(1, 6) ? (float)(g.range(1, 16) / 4.0) : 1.0f;
+      int deg = g.range(1, 4);
+      for (int d = 0; d < deg; ++d) pin(nt, g.range(0, n - 1));
+      s.nets.push_back(nt);
+    }
+  }
+  if (nm == 3 || nm == 5) {
+    int nn = g.range(1, 4);
+    for (int k = 0; k < nn; ++k) {
+      NetS nt;
+      int deg = g.range(5, std::max(5, std::min(n, 40)));
+      for (int d = 0; d < deg; ++d) pin(nt, g.range(0, n - 1));
+      s.nets.push_back(nt);
+    }
+  }
+  di.cells = n;
+  di.minArea = minArea;
+  di.density = (double)area / cap;
+  // bins of the default rough legalization (binSize 5 x minimum cell height)
+  di.binsX = std::max<long long>(1, (long long)W / (5 * H));
+  di.binsY = std::max<long long>(1, (long long)nRows * H / (5 * H));
+  return s;
+}
+
 static void applyShape(vh::Rng &g, Spec &s, int shape) {
   int n = s.n();
   std::vector<int> mov;
@@ -418,6 +596,7 @@ struct Case {
   std::string kind, seq;
   int shape = 0, pmode = 0;
   bool cb = false;
+  std::string extra;  // additional distribution keys (",key,key")
   Spec spec;
   ColoquinteParameters params = ColoquinteParameters(1);
   std::string input() const {
@@ -463,6 +642,68 @@ static bool genCase(vh::Rng &g, const vh::Args &a, Case &cs) {
     static const char *seqs[] = {"L", "LD", "LD", "D", "G", "GD", "GD", "GLD", "GLD", "DD"};
     cs.seq = seqs[sr];
     cs.cb = g.chance(1, 4);
+    std::string err = cs.spec.domainError();
+    if (err.empty()) return true;
+  }
+  return false;
+}
+
+// distribution keys of the rough-legalization variant a case exercises
+static std::string paramKeys(const ColoquinteParameters &p) {
+  auto &R = p.global.roughLegalization;
+  std::ostringstream os;
+  os << ",flow_rl_1d_transport_" << (R.unidimensionalTransport ? "on" : "off") << ",flow_rl_cost_model_" << (int)R.costModel
+     << ",flow_rl_line_reopt_" << (R.lineReoptSize == 1 ? "1" : (R.lineReoptSize <= 5 ? "2-5" : "6-64"))
+     << ",flow_rl_diag_reopt_" << (R.diagReoptSize == 1 ? "1" : (R.diagReoptSize <= 5 ? "2-5" : "6-64"))
+     << ",flow_rl_square_reopt_" << (R.squareReoptSize == 1 ? "1" : (R.squareReoptSize <= 3 ? "2-3" : "4-8"))
+     << ",flow_rl_nb_steps_" << R.nbSteps << ",flow_net_model_" << (int)p.global.continuousModel.netModel;
+  return os.str();
+}
+
+// dense kinds (see genDense): every k-th case beyond the classic ones
+static bool genDenseCase(vh::Rng &g, const vh::Args &a, Case &cs) {
+  for (int attempt = 0; attempt < 20; ++attempt) {
+    cs = Case();
+    int kr = g.range(0, 9);
+    int kind = kr < 5 ? 0 : (kr < 8 ? 1 : 2);
+    static const char *kinds[] = {"unit", "grid", "tiny"};
+    cs.kind = kinds[kind];
+    // shapes: plain mostly; the degenerate shapes that make sense on a dense design
+    static const int shapes[] = {0, 0, 0, 0, 0, 3, 4, 5, 6, 8, 1, 7};
+    int shape = shapes[g.range(0, kind == 2 ? 11 : 9)];
+    cs.shape = shape;
+    int maxCells = kind == 2 ? g.range(1, 4) : (a.thorough() ? g.range(10, 400) : g.range(10, g.chance(1, 4) ? 200 : 100));
+    DenseInfo di;
+    cs.spec = genDense(g, kind, maxCells, shape == 8, di);
+    if (shape == 1) {
+      long long y = cs.spec.rows[0].minY;
+      std::vector<Row> keep;
+      for (auto &r : cs.spec.rows) if (r.minY == y) keep.push_back(r);
+      cs.spec.rows = keep;
+    }
+    if (shape != 8) applyShape(g, cs.spec, shape);
+    if (g.chance(1, kind == 2 ? 2 : 4)) pushToLimits(g, cs.spec);
+    // parameters: the defaults of an effort half of the time (1-D transport on, L1), all variants otherwise
+    if (g.chance(1, 2)) {
+      cs.pmode = 0;
+      cs.params = ColoquinteParameters(g.range(1, 9));
+      cs.params.seed = g.range(-3, 1000);
+      cs.params.global.maxNbSteps = g.chance(1, 10) ? 400 : g.range(1, 40);
+    } else {
+      cs.params = genAllParams(g, cs.pmode);
+    }
+    if (di.cells > 60 && cs.params.global.maxNbSteps > 60) cs.params.global.maxNbSteps = g.range(20, 60);
+    if (cs.params.global.nbInitialSteps >= cs.params.global.maxNbSteps) cs.params.global.nbInitialSteps = 0;
+    try { cs.params.check(); } catch (const std::exception &) { continue; }
+    static const char *seqs[] = {"G", "G", "GD", "GD", "GLD", "GLD", "L", "LD", "LD", "D"};
+    cs.seq = seqs[g.range(0, 9)];
+    cs.cb = g.chance(1, 6);
+    std::ostringstream ex;
+    ex << ",dense_cells_" << (di.cells <= 4 ? "1-4" : (di.cells <= 30 ? "5-30" : (di.cells <= 100 ? "31-100" : "101+")))
+       << ",dense_min_cell_area_" << (di.minArea == 1 ? "1" : (di.minArea <= 4 ? "2-4" : "5+"))
+       << ",dense_density_" << (di.density > 1.0 + 1e-9 ? "above_100" : (di.density >= 1.0 - 1e-9 ? "exactly_100" : (di.density >= 0.9 ? "90-100" : (di.density >= 0.5 ? "50-90" : "below_50"))))
+       << ",dense_default_bins_" << (di.binsX * di.binsY == 1 ? "1" : (di.binsX == 1 || di.binsY == 1 ? "1xN" : (di.binsX * di.binsY <= 16 ? "NxM<=16" : "NxM>16")));
+    cs.extra = ex.str();
     std::string err = cs.spec.domainError();
     if (err.empty()) return true;
   }
@@ -607,7 +848,8 @@ static Rec flowRecord(const std::string &id, long long k, const Case &cs, int ti
   r.fate = fate;
   std::ostringstream cnt;
   cnt << "flow_kind_" << cs.kind << ",flow_shape_" << SHAPES[cs.shape] << ",flow_seq_" << cs.seq << ",flow_params_mode_" << cs.pmode
-      << ",flow_maxabs_2^" << log2Bucket(cs.spec.maxAbs()) << ",flow_fate_" << fate;
+      << ",flow_maxabs_2^" << log2Bucket(cs.spec.maxAbs()) << ",flow_fate_" << fate << cs.extra;
+  if (cs.seq.find('G') != std::string::npos) cnt << paramKeys(cs.params);
   if (retried) cnt << ",flow_slow_case_retried";
   bool anyOk = false;
   {
@@ -787,21 +1029,27 @@ static std::string abaImpl(const Aba &a, std::ostream &impl) {
 }
 
 // ------------------------------------------------------------------ worker
-struct Plan { long long nFlow, nM, nX, nS, nA; int timeout; };
+struct Plan { long long nFlow, nDense, nM, nX, nS, nA; int timeout; };
 static Plan planFor(const vh::Args &a) {
-  if (a.thorough()) return {12000, 60000, 3000, 3000, 20000, 300};
-  if (a.search()) return {2500, 20000, 600, 1500, 20000, 120};
-  return {1500, 20000, 1200, 400, 6000, 120};
+  if (a.thorough()) return {12000, 8000, 60000, 3000, 3000, 20000, 300};
+  if (a.search()) return {2500, 1500, 20000, 600, 1500, 20000, 120};
+  return {1500, 600, 20000, 1200, 400, 6000, 120};
 }
 static const int MBATCH = 500;
 
 static bool parseFlowCase(const std::string &in, Case &cs);
 static std::vector<std::string> corpusFiles(const std::string &dir, bool withSlow);
 
+// development aid: C07_STAGES=<letters of C F D M X S A> restricts the run to these stages
+static bool stageOn(char c) {
+  const char *e = getenv("C07_STAGES");
+  return !e || !*e || strchr(e, c);
+}
+
 static void worker(const vh::Args &a, int w, int J, const Plan &pl, const std::string &path) {
   std::ofstream f(path, std::ios::binary);
   // stage C: hand-written / recorded witnesses in the corpus directory
-  if (a.only < 0) {
+  if (a.only < 0 && stageOn('C')) {
     std::vector<std::string> files = corpusFiles(a.corpus, a.thorough());
     for (size_t i = w; i < files.size(); i += J) {
       std::ifstream cf(a.corpus + "/" + files[i]);
@@ -821,7 +1069,7 @@ static void worker(const vh::Args &a, int w, int J, const Plan &pl, const std::s
     }
   }
   // stage F
-  for (long long k = w; k < pl.nFlow; k += J) {
+  for (long long k = w; k < pl.nFlow && stageOn('F'); k += J) {
     if (a.only >= 0 && k != a.only) continue;
     vh::Rng g = vh::Rng::forCase(a.seed, k);
     Case cs;
@@ -832,10 +1080,22 @@ static void worker(const vh::Args &a, int w, int J, const Plan &pl, const std::s
     }
     writeRec(f, flowRecord("f" + std::to_string(k), k, cs, pl.timeout));
   }
+  // stage F, dense kinds: case ids d<k>; --only 1000000+k selects one
+  for (long long k = w; k < pl.nDense && stageOn('D'); k += J) {
+    if (a.only >= 0 && k + 1000000 != a.only) continue;
+    vh::Rng g = vh::Rng::forCase(a.seed ^ 0x4444, k);
+    Case cs;
+    if (!genDenseCase(g, a, cs)) {
+      Rec r; r.k = pl.nFlow + k; r.stage = "F"; r.id = "d" + std::to_string(k); r.fate = "skipped"; r.counts = "flow_skipped_out_of_domain";
+      writeRec(f, r);
+      continue;
+    }
+    writeRec(f, flowRecord("d" + std::to_string(k), pl.nFlow + k, cs, pl.timeout));
+  }
   if (a.only >= 0) return;
   // stage M: batches of in-domain row-legalizer instances, one child per batch
   long long nBatches = (pl.nM + MBATCH - 1) / MBATCH;
-  for (long long bt = w; bt < nBatches; bt += J) {
+  for (long long bt = w; bt < nBatches && stageOn('M'); bt += J) {
     Rec r; r.k = bt; r.stage = "M"; r.id = "m" + std::to_string(bt);
     std::ostringstream ops;
     std::vector<Inst> insts;
@@ -862,7 +1122,7 @@ static void worker(const vh::Args &a, int w, int J, const Plan &pl, const std::s
     writeRec(f, r);
   }
   // stage X: one child per beyond-domain instance
-  for (long long k = w; k < pl.nX; k += J) {
+  for (long long k = w; k < pl.nX && stageOn('X'); k += J) {
     vh::Rng g = vh::Rng::forCase(a.seed ^ 0x5858, k);
     Inst in = wildInst(g);
     Rec r; r.k = k; r.stage = "X"; r.id = "x" + std::to_string(k);
@@ -878,7 +1138,7 @@ static void worker(const vh::Args &a, int w, int J, const Plan &pl, const std::s
     writeRec(f, r);
   }
   // stage S
-  for (long long k = w; k < pl.nS; k += J) {
+  for (long long k = w; k < pl.nS && stageOn('S'); k += J) {
     vh::Rng g = vh::Rng::forCase(a.seed ^ 0x5353, k);
     Sub s = genSub(g);
     Rec r; r.k = k; r.stage = "S"; r.id = "s" + std::to_string(k);
@@ -900,7 +1160,7 @@ static void worker(const vh::Args &a, int w, int J, const Plan &pl, const std::s
   }
   // stage A: batches, in-process inside one child per batch
   long long nAB = (pl.nA + MBATCH - 1) / MBATCH;
-  for (long long bt = w; bt < nAB; bt += J) {
+  for (long long bt = w; bt < nAB && stageOn('A'); bt += J) {
     Rec r; r.k = bt; r.stage = "A"; r.id = "a" + std::to_string(bt);
     std::ostringstream ops;
     std::vector<Aba> v;
